@@ -33,13 +33,16 @@ fn read_max_streams(
 fn build_capabilities(
     max_streams: &HashMap<CapabilityId, u32>,
 ) -> Vec<proto::handshake::Capability> {
-    max_streams
+    // Sorted by id, so that equal handshakes have equal encodings.
+    let mut capabilities: Vec<_> = max_streams
         .iter()
         .map(|(id, max_streams)| proto::handshake::Capability {
             id: Some(*id),
             max_streams: Some(*max_streams),
         })
-        .collect()
+        .collect();
+    capabilities.sort_by_key(|c| c.id);
+    capabilities
 }
 
 impl zksync_protobuf::ProtoFmt for Handshake {
